@@ -81,6 +81,8 @@ def main():
     if a.seeded:
         for meta in sorted(glob.glob(os.path.join(HERE, 'seeded', '*', 'meta.json'))):
             m = json.load(open(meta))
+            if m.get('obsolete'):
+                continue  # masked by a later fix in /repo; kept for the record (see meta.json)
             for q in m.get('checks', [m['property']]):
                 jobs.append((q, os.path.join(os.path.dirname(meta), 'patch.diff'), a.tests and q == m['property'], max(2, 16 // a.jobs)))
     jobs = [j for j in jobs if a.only in j[1] or a.only == j[0]]
